@@ -1,6 +1,7 @@
 package server
 
 import (
+	"bufio"
 	"github.com/bokysan/socketace/v2/internal/socketace"
 	"github.com/bokysan/socketace/v2/internal/streams"
 	"github.com/bokysan/socketace/v2/internal/util/buffers"
@@ -13,6 +14,7 @@ import (
 	"net"
 	"os"
 	"strings"
+	"sync"
 )
 
 func AcceptConnection(conn net.Conn, manager cert.TlsConfig, secure bool, channels Channels) error {
@@ -104,6 +106,39 @@ func (ch *ConnectionHandler) muxHandler(protocol string, downstreamConnection io
 	return errors.Errorf("Uknown protocol %s", protocol)
 }
 
+// clientFirstConn delays the first Write until the first bytes from the peer have arrived. The multiplexer on the
+// client registers a newly opened stream only after its SYN frame has been written out, so anything the server sends
+// on a new stream before the client has written to it can arrive before the stream exists and is silently dropped,
+// which leaves both ends of the protocol selection waiting for each other forever. The client always writes first
+// once its stream is open, so waiting for those bytes closes the window.
+type clientFirstConn struct {
+	net.Conn
+	reader *bufio.Reader
+	once   sync.Once
+	err    error
+}
+
+func newClientFirstConn(conn net.Conn) *clientFirstConn {
+	return &clientFirstConn{
+		Conn:   conn,
+		reader: bufio.NewReaderSize(conn, buffers.BufferSize),
+	}
+}
+
+func (c *clientFirstConn) Read(p []byte) (int, error) {
+	return c.reader.Read(p)
+}
+
+func (c *clientFirstConn) Write(p []byte) (int, error) {
+	c.once.Do(func() {
+		_, c.err = c.reader.Peek(1)
+	})
+	if c.err != nil {
+		return 0, c.err
+	}
+	return c.Conn.Write(p)
+}
+
 // Create a multistream to let the client choose an appropriate solution
 func (ch *ConnectionHandler) multiplexToUpstream(multiplexChannel net.Conn) error {
 	mux := multistream.NewMultistreamMuxer()
@@ -119,7 +154,7 @@ func (ch *ConnectionHandler) multiplexToUpstream(multiplexChannel net.Conn) erro
 	}()
 
 	log.Tracef("[Server] Handle channel %v", multiplexChannel)
-	if err := mux.Handle(multiplexChannel); err != nil {
+	if err := mux.Handle(newClientFirstConn(multiplexChannel)); err != nil {
 		err = errors.Wrapf(err, "Could not handle multiplex channel: %+v", err)
 		return err
 	}
